@@ -745,6 +745,148 @@ fn out_cfg() -> AspCfg {
     }
 }
 
+/// the oracle shared by the output checks: `theory` is what a command is about to print
+fn check_printed_theory(theory: &fol::Theory, what: &str, source: &str, raw: &RawInterp) -> Outcome {
+    let s = theory.to_string();
+    let label = format!("transform={what}");
+    let back: fol::Theory = match s.parse() {
+        Ok(t) => t,
+        Err(e) => {
+            return Outcome::fail(
+                "output-rejected",
+                format!(
+                    "C15: anthem rejects the theory it printed ({what})\n  input: {source}\n  output: {s}\n  error: {}",
+                    e.to_string().lines().take(6).collect::<Vec<_>>().join(" | ")
+                ),
+            );
+        }
+    };
+    let s2 = back.to_string();
+    if s2 != s {
+        return Outcome::fail("output-not-stable", format!("C15: printing the re-parsed output differs ({what})\n  first : {s}\n  second: {s2}"));
+    }
+    let nontrivial = s.contains("exists") || s.contains("forall");
+    let key = hash64(&s);
+    if back == *theory {
+        return Outcome::pass(nontrivial, key).label(label).label("same-tree");
+    }
+    if back.formulas.len() != theory.formulas.len() {
+        return Outcome::fail("output-reparses-differently", format!("C15: output re-parses to a different number of formulas\n  output: {s}"));
+    }
+    for (a, b) in theory.formulas.iter().zip(back.formulas.iter()) {
+        let (ia, ib) = (ir::lower(a), ir::lower(b));
+        if ia == ib {
+            continue;
+        }
+        let mut sig = ir::Signature::default();
+        ia.signature(&mut sig);
+        ib.signature(&mut sig);
+        let pool = gf::value_pool(&sig, &["zz"]);
+        let preds: Vec<(String, usize)> = sig.preds.iter().cloned().collect();
+        let fcs: Vec<ir::VarId> = sig.fcs.iter().cloned().collect();
+        let (_, t) = gf::build_interp(raw, &preds, &fcs, &pool);
+        let window: Vec<_> = pool.iter().take(8).cloned().collect();
+        let ev = Ev::classical(&t, &window, false).with_budget(300_000);
+        let mut free = ia.free_vars();
+        free.extend(ib.free_vars());
+        let envp = gf::build_env(&free, &[7, 40000, 20000], &pool);
+        let va = ev.sat(&ia, &mut Env::from_pairs(&envp), World::T);
+        let vb = ev.sat(&ib, &mut Env::from_pairs(&envp), World::T);
+        if let (Some(x), Some(y)) = (va, vb) {
+            if x != y {
+                return Outcome::fail(
+                    "output-changes-meaning",
+                    format!("C15: the printed output of {what} denotes a different formula when read back\n  input: {source}\n  tree   : {a:?}\n  printed: {a}\n  re-read: {b:?}\n  values {x} vs {y} in {}", t.json()),
+                );
+            }
+        }
+    }
+    Outcome::pass(nontrivial, key).label(label).label("different-tree-same-meaning")
+}
+
+// ---------------------------------------------------------------------------------------
+// C15: what `simplify` and `translate --with gamma` print for hand-written theories
+
+#[derive(Clone, Debug)]
+pub struct TheoryOutCase {
+    pub formula: fol::Formula,
+    /// recorded input text (regression replays): used instead of `formula` when present
+    pub text: Option<String>,
+    pub transform: Transform,
+    pub raw: RawInterp,
+}
+
+pub struct C15TheoryOutputs;
+
+fn theory_cfg() -> gf::FolCfg {
+    gf::FolCfg {
+        preds: vec![("p".into(), 1), ("q".into(), 1), ("r".into(), 2), ("s".into(), 0), ("notp".into(), 1), ("_r".into(), 1)],
+        // identifier shapes the grammar accepts: leading underscores, names that are prefixes of each other
+        gvars: vec!["X".into(), "Y".into(), "_X".into(), "I".into()],
+        ivars: vec!["X".into(), "I".into(), "_I".into(), "N1".into()],
+        svars: vec!["S".into(), "_S".into()],
+        syms: vec!["a".into(), "_c".into(), "nota".into(), "andy".into()],
+        fcs: vec![("c".into(), crate::dom::Sort::G), ("n".into(), crate::dom::Sort::I)],
+        num_lo: -2,
+        num_hi: 3,
+        depth: 4,
+        max_guards: 2,
+        term_depth: 2,
+    }
+}
+
+impl Check for C15TheoryOutputs {
+    type Case = TheoryOutCase;
+    fn name(&self) -> &'static str {
+        "simplify-output"
+    }
+    fn cases(&self, tier: Tier) -> usize {
+        tier.pick(100_000, 2_000_000)
+    }
+    fn strategy(&self, _tier: Tier) -> BoxedStrategy<TheoryOutCase> {
+        let c = theory_cfg();
+        let transforms: Vec<Transform> = Transform::all().into_iter().filter(|t| matches!(t, Transform::Gamma | Transform::Simplify(..))).collect();
+        (
+            prop_oneof![3 => gf::guarded_formula(&c), 1 => gf::formula(&c)],
+            prop::sample::select(transforms),
+            gf::raw_interp(c.preds.len(), c.fcs.len(), 2, 4),
+        )
+            .prop_map(|(formula, transform, raw)| TheoryOutCase { formula, text: None, transform, raw })
+            .boxed()
+    }
+    fn rule(&self) -> String {
+        "random target-language formula (guarded and unguarded; variables and constants with leading underscores, names that are prefixes of keywords or of each other, the same name at several sorts) first brought into the parser's image (printed by the independent printer and parsed), then given to gamma or to one of the 9 simplify portfolio/strategy combinations; oracle as in part translate-output: the printed result is accepted, printing is stable, and the re-parsed tree is the same (or at least means the same); non-trivial = the output has a quantifier; distinct by output text".into()
+    }
+    fn run(&self, case: &TheoryOutCase) -> Outcome {
+        let text = case.text.clone().unwrap_or_else(|| sp::formula(&case.formula, &Style::plain()));
+        let Ok(input) = format!("{text}.").parse::<fol::Theory>() else {
+            return Outcome::skip("generated formula not accepted (outside the parser's image)");
+        };
+        let out = match &case.transform {
+            Transform::Gamma => input.clone().gamma(),
+            Transform::Simplify(p, s) => fol::Theory {
+                formulas: input.formulas.iter().cloned().map(|f| ops::simplify(f, p, *s)).collect(),
+            },
+            _ => return Outcome::skip("transformation does not apply to theories"),
+        };
+        check_printed_theory(&out, &case.transform.name(), &text, &case.raw)
+    }
+    fn describe(&self, case: &TheoryOutCase) -> Value {
+        json!({"formula": sp::formula(&case.formula, &Style::plain()), "transform": case.transform.name(), "raw": raw_json(&case.raw)})
+    }
+    fn from_replay(&self, j: &Value) -> Option<TheoryOutCase> {
+        // a recorded text that anthem no longer accepts is kept as text (the case is then skipped)
+        let text = j["formula"].as_str()?.to_string();
+        let f: fol::Formula = text.parse().unwrap_or(fol::Formula::AtomicFormula(fol::AtomicFormula::Truth));
+        Some(TheoryOutCase {
+            formula: f,
+            text: Some(text),
+            transform: Transform::parse(j["transform"].as_str()?)?,
+            raw: raw_from_json(&j["raw"])?,
+        })
+    }
+}
+
 impl Check for C15Outputs {
     type Case = OutCase;
     fn name(&self) -> &'static str {
